@@ -50,6 +50,27 @@ def setup():
             return real(clauses, **kw)
         _rec["clauses"] = [list(c) for c in clauses]
         _rec["kw"] = kw
+        proj = _rec.get("proj")
+        if proj is not None:
+            # The check hands the model-level value literals (IntVar.bool_vars) over as assumptions: what arrives here is
+            # the encoder's own translation of them into the numbering of this CNF (the identity unless the encoder
+            # renumbers its literals before calling the solver).
+            a = kw.get("assumptions")
+            sigma = None
+            if isinstance(a, (list, tuple)) and len(a) == len(proj) and all(isinstance(l, int) and l > 0 for l in a) and len(set(a)) == len(a):
+                sigma = {bv: bv for bv in proj} if set(a) == set(proj) else dict(zip(proj, a))
+            _rec["sigma"] = sigma
+            mapped = proj if sigma is None else [sigma[bv] for bv in proj]
+            # answer like a SAT solver that enumerates: every model class of the CNF (projected on the value literals),
+            # two full models each, so that the encoder's own decoding of each of them comes back through
+            # SATEncoder.solve and can be compared with the check's reading of the CNF
+            wit = {}
+            models, complete = ocp.cnf_projected_models(_rec["clauses"], mapped, witnesses=wit)
+            _rec["models"], _rec["complete"] = models, complete
+            order = [(key, w) for key in sorted(models, key=sorted) for w in wit.get(key, ())]
+            _rec["answered"] = order
+            if complete and order:
+                return types.Result(order[0][1], 0, 0, 0, types.Status.OPTIMAL, solutions=tuple(w for _k, w in order))
         return types.Result(None, 0, 0, 0, types.Status.INFEASIBLE)
 
     _enc.solve_sat = recorder  # boundary capture: the encoder's own binding of solve_sat
@@ -129,10 +150,11 @@ def gen(stratum, rng, tier):
     return case
 
 
-def _encode(model):
+def _encode(model, proj=None):
     _rec.clear()
+    _rec["proj"] = proj
     enc = _enc.SATEncoder(model)
-    res = enc.solve()
+    res = enc.solve() if proj is None else enc.solve(solution_limit=1 << 20, assumptions=list(proj))
     return res
 
 
@@ -140,7 +162,13 @@ def _compare(spec, model, xs, S, named, obs, tag):
     """Enumerate the captured CNF's models projected on the named variables' value literals; compare with S."""
     from vf.common import call, is_crash
 
-    res = call(obs, _encode, model, what="SATEncoder.solve (recorded)", budget=60_000_000)
+    lit_of = {}  # bool var -> (named position, value): the published layout (IntVar.bool_vars) as the check reads it
+    proj = []
+    for pos, i in enumerate(named):
+        for val, bv in xs[i].bool_vars.items():
+            lit_of[bv] = (pos, val)
+            proj.append(bv)
+    res = call(obs, _encode, model, proj, what="SATEncoder.solve (recorded)", budget=60_000_000)
     if is_crash(res):
         return
     obs.event("enc.cnf-captured")
@@ -157,16 +185,70 @@ def _compare(spec, model, xs, S, named, obs, tag):
     clauses = _rec["clauses"]
     nbool = max((abs(l) for c in clauses for l in c), default=0)
     obs.event("enc.bool-vars", nbool)
-    lit_of = {}  # bool var -> (named position, value)
-    proj = []
-    for pos, i in enumerate(named):
-        for val, bv in xs[i].bool_vars.items():
-            lit_of[bv] = (pos, val)
-            proj.append(bv)
-    models, complete = ocp.cnf_projected_models(clauses, proj)
+    models, complete = _rec["models"], _rec["complete"]
     if not complete:
         obs.inconc("CNF model enumeration hit its node limit")
         return
+    names = [spec["vars"][i][0] for i in named]
+    if not models:
+        # the CNF has no model at all: a statement that does not depend on how literals are numbered
+        obs.event("enc.modelset-compared")
+        obs.event("enc.cnf-models", 0)
+        if S:
+            obs.violate("enc.overconstrained-missing-models", f"{tag}: the CNF is unsatisfiable; CP solutions {sorted(S)[:3]} over {names} "
+                        f"are not models of it (|D|=0, |S|={len(S)})")
+        return
+    # The encoder's own decoding of the CNF models the recorder answered with decides how the CNF is to be read.
+    answered = _rec.get("answered") or []
+    decoded = list(res.solutions or ()) if res.status.name in ("OPTIMAL", "FEASIBLE") else []
+    sigma = _rec.get("sigma")
+    layout_ok = len(decoded) == len(answered) and bool(answered) and sigma is not None
+    if sigma is not None:
+        if any(sigma[bv] != bv for bv in sigma):
+            obs.event("enc.l2.literals-renumbered-by-encoder")
+        lit_of = {sigma[bv]: pv for bv, pv in lit_of.items()}
+    order_of = {}  # (pos, value) -> rank in IntVar.bool_vars order: the encoder's decoding reports the first true one
+    for pos, i in enumerate(named):
+        for k, val in enumerate(xs[i].bool_vars):
+            order_of[(pos, val)] = k
+    reals = []
+    if layout_ok:
+        for (key, _w), dec in zip(answered, decoded):
+            per = [[] for _ in named]
+            for bv in key:
+                pos, val = lit_of[bv]
+                per[pos].append(val)
+            for pos, vals in enumerate(per):
+                vals.sort(key=lambda v, pos=pos: order_of[(pos, v)])
+            try:
+                real_vals = [dec.get(nm) for nm in names]
+            except AttributeError:
+                layout_ok = False
+                break
+            reals.append(real_vals)
+            for vals, rv in zip(per, real_vals):
+                # one true value literal: that value; several: the first in the variable's own order; none: nothing
+                if (vals and rv != vals[0]) or (not vals and rv is not None):
+                    layout_ok = False
+    if not layout_ok:
+        # The encoder numbers or decodes its literals differently from the layout this check assumes (for instance it
+        # renumbers literals before calling the SAT solver and maps models back).  The reading below would then be the
+        # check's mistake, not the encoder's: judge only what holds under any layout - every CNF model the recorder
+        # answered with, decoded by the encoder itself, has to satisfy the CP constraints - and leave completeness to
+        # the enumeration through Model.solve.
+        obs.event("enc.l2.layout-differs-from-assumed")
+        if len(decoded) == len(answered) and reals and len(reals) == len(answered):
+            for rv in reals:
+                if any(v is None for v in rv):
+                    obs.violate("enc.not-exactly-one-value", f"{tag}: the encoder decodes a model of its CNF to {dict(zip(names, rv))}: a named variable has no value")
+                    return
+                if tuple(rv) not in S:
+                    obs.violate("enc.unsound-extra-models", f"{tag}: a model of the CNF decodes (by the encoder's own decoding) to "
+                                f"{dict(zip(names, rv))}, which violates the CP constraints (|S|={len(S)})")
+                    return
+            obs.event("enc.decoded-models-checked-under-unknown-layout", len(reals))
+        return
+    obs.event("enc.layout-confirmed-by-own-decoding", len(answered))
     D = set()
     for m in models:
         per = [[] for _ in named]
@@ -175,7 +257,7 @@ def _compare(spec, model, xs, S, named, obs, tag):
             per[pos].append(val)
         obs.event("enc.exactly-one-checked")
         if any(len(p) != 1 for p in per):
-            obs.violate("enc.not-exactly-one-value", f"{tag}: a CNF model gives values {per} to {[spec['vars'][i][0] for i in named]}")
+            obs.violate("enc.not-exactly-one-value", f"{tag}: a CNF model gives values {per} to {names}")
             return
         D.add(tuple(p[0] for p in per))
     obs.event("enc.modelset-compared")
